@@ -197,6 +197,9 @@ func mutantsFor(prop string) []Mutant {
 		{"C09", "the predicate verdict comes from a helper that may answer nil", []Edit{{sr, "\t\tif final_value.getBoolean() {\n\t\t\tnext_state.RETURN()", "\t\tif verdictOf(final_value, pstate).getBoolean() {\n\t\t\tnext_state.RETURN()"}, {sr, "func matchJump(", "// verdictOf answers what the predicate returned\nfunc verdictOf(value ProcessValue, state ProcessState) ProcessValue {\n\tif state.status != RETURNING {\n\t\treturn nil\n\t}\n\treturn value\n}\n\nfunc matchJump("}}},
 		{"C19", "debug output is serialised with a lock that is not deferred", []Edit{{ex, "func executeDebug(s *ast.AstProcessDebug, state ProcessState) ProcessState {\n\texpr_state := executeExpression(&s.Expr, state)\n\tfmt.Println(expr_state.currentValue.getString())\n", "var debug_lock sync.Mutex\n\nfunc executeDebug(s *ast.AstProcessDebug, state ProcessState) ProcessState {\n\tdebug_lock.Lock()\n\texpr_state := executeExpression(&s.Expr, state)\n\tfmt.Println(expr_state.currentValue.getString())\n\tdebug_lock.Unlock()\n"}, {ex, "import (\n\t\"fmt\"\n", "import (\n\t\"fmt\"\n\t\"sync\"\n"}}},
 		{"C19", "RunFiles filters the list of names in place", []Edit{{"libvore/engine/engine.go", "\t\tactualMode = NOTHING\n\t}\n\tresult := Matches{}\n", "\t\tactualMode = NOTHING\n\t}\n\tkept := filenames[:0]\n\tfor _, name := range filenames {\n\t\tif name != \"\" {\n\t\t\tkept = append(kept, name)\n\t\t}\n\t}\n\tfilenames = kept\n\tresult := Matches{}\n"}}},
+		{"C14", "the captures of the previous copy of a loop body stay declared", []Edit{{gen, "\t\tfor _, name := range copyDeclared {\n\t\t\tdelete(state.variables, name)\n\t\t}\n", ""}}},
+		{"C02", "a back-reference reads the environment only", []Edit{{se, "\tvalue, found := es.LOOKUPVARIABLE(name)\n", "\tvalue, found := es.environment.Get(name)\n"}}},
+		{"C11", "bool < orders the right operand by its number", []Edit{{ex, "lhs_state.currentValue.getNumber() < ProcessValueBoolean{rhs_state.currentValue.getBoolean()}.getNumber()", "lhs_state.currentValue.getNumber() < rhs_state.currentValue.getNumber()"}}},
 		{"C08", "expression scan does not stop on the EOF token", []Edit{{ps, "tokenType == BREAK || tokenType == CONTINUE || tokenType == EOF", "tokenType == BREAK || tokenType == CONTINUE"}}},
 	}
 	var out []Mutant
